@@ -4,7 +4,8 @@ from concurrent.futures import ThreadPoolExecutor
 from .. import common, replay
 from ..adapters.transform import TransformAdapter
 
-INVARIANTS = ['TypeOK', 'StoredIsReduced', 'NotifiedValueIsReadBack', 'OnlyMatchingEvent', 'OncePerListener']
+INVARIANTS = ['TypeOK', 'StoredIsReduced', 'NotifiedValueIsReadBack', 'DeliveryReadsPayload', 'StoredIsLastAssigned',
+              'LastNotificationIsReadBack', 'OnlyMatchingEvent', 'OncePerListener']
 PROPERTIES = ['ConstructedLikeAssigned', 'DefaultsNotShared', 'StoresAssigned']
 
 
@@ -12,10 +13,12 @@ def _set(xs):
     return '{' + ', '.join('"%s"' % x for x in xs) + '}'
 
 
-def consts(t2, t3, vecs, ops, rot='Rot_All', subs='Subs_Some', ctor='Ctor_Some', reg='Reg_None', d20=True):
+def consts(t2, t3, vecs, ops, rot='Rot_All', subs='Subs_Some', ctor='Ctor_Some', reg='Reg_None', beh='Beh_Nop',
+           d20=True, store_first=True):
     c = {'T2': _set(t2), 'T3': _set(t3), 'L': _set(['l1', 'l2']), 'Vecs': _set(vecs),
-         'WithListenerOps': 'TRUE' if ops else 'FALSE', 'RotationNotifiesStored': 'TRUE' if d20 else 'FALSE'}
-    ov = {'Rot': rot, 'SubsChoices': subs, 'CtorChoices': ctor, 'RegChoices': reg}
+         'WithListenerOps': 'TRUE' if ops else 'FALSE', 'RotationNotifiesStored': 'TRUE' if d20 else 'FALSE',
+         'StoreBeforeNotify': 'TRUE' if store_first else 'FALSE'}
+    ov = {'Rot': rot, 'SubsChoices': subs, 'CtorChoices': ctor, 'RegChoices': reg, 'BehChoices': beh}
     return c, ov
 
 
@@ -40,7 +43,7 @@ def replay_graph(res, name, g, kinds, depth_all=4, init_stride=1, walks=1500, wa
         st = replay.run_paths(g, factory, replay.random_walks(g, walks, walk_len, res.seed))
         res.absorb(st, name + ':random-walks', g)
     for s, labs, _t in replay.random_walks(g, 1, 7, res.seed + 1):
-        res.sample({'instance': name, 'init': {k: str(dict(g.states[s][k])) for k in ('subs', 'ctor', 'reg')},
+        res.sample({'instance': name, 'init': {k: str(dict(g.states[s][k])) for k in ('subs', 'beh', 'ctor', 'reg')},
                     'calls': ['%s%s' % (n, list(a)) for n, a in labs]})
 
 
@@ -50,9 +53,13 @@ def run(res):
         'rotations from {-370, -10, 0, 10, 359, 360, 370, 725} given as ints and as floats (exact in binary floating point); '
         'vectors are Vec2/Vec3 instances and plain tuples',
         'payloads, reads and constructor arguments are compared by value (10 == 10.0, Vec2(1, 2) == (1, 2)); in addition a '
-        'vector payload must be the object the read returns right after the assignment; a read made inside the callback is '
-        'not compared',
-        'listener order within one dispatch is not compared (per-call log is a multiset)',
+        'vector payload must be the object a read made inside the callback returns',
+        'listener order within one dispatch is a choice of the specification: the observed delivery sequence must be one '
+        'of the sequences the model allows for the call (both orders of two listeners are steered through __hash__)',
+        'listeners that re-assign the notified property from their callback ("clamp"): a listener that comes later in the '
+        'iteration order is told the outer, already overwritten value last (stale delivery) - inherent to synchronous '
+        'dispatch, not counted against C20; every non-stale last notification must equal the read, and the stored value '
+        'must be the most recently assigned one',
         'sharing of default objects between instances is flagged only if the shared object is mutable (Vec types are tuples)',
     ]
     vecs = ['va', 'vb']
@@ -67,6 +74,12 @@ def run(res):
                                           ctor='Ctor_Shapes', reg='Reg_Cross'), dict(walks=1000)),
         ('c20_2d2d', ['p', 'q'], [], consts(['p', 'q'], [], ['va'], False, rot='Rot_Few', subs='Subs_Two',
                                             ctor='Ctor_Shapes', reg='Reg_Cross'), dict(walks=1000)),
+        # a listener re-assigns the property it is told about (re-entrant setter): order of store and notify,
+        # final value, complete delivery sequences for both iteration orders
+        ('c20_clamp2d', ['p'], [], consts(['p'], [], vecs, False, rot='Rot_Few', subs='Subs_Both', ctor='Ctor_None',
+                                          reg='Reg_Full', beh='Beh_Clamp'), dict(walks=800)),
+        ('c20_clamp3d', [], ['q'], consts([], ['q'], vecs, False, rot='Rot_Few', subs='Subs_Both', ctor='Ctor_None',
+                                          reg='Reg_Full', beh='Beh_Clamp'), dict(walks=800)),
     ]
 
     def mc(inst):
@@ -78,19 +91,44 @@ def run(res):
         # non-vacuity, D20: with the setter as written at 05622c8 (dispatches the raw value) TLC finds the violation
         c, ov = consts(['p'], [], vecs, True, d20=False)
         res.model_check('TransformMC', 'c20_asimpl_rotation', c, invariants=INVARIANTS, properties=PROPERTIES,
-                        overrides=ov, expect_violation='NotifiedValueIsReadBack', count=False, workers=4)
+                        overrides=ov, expect_violation=('NotifiedValueIsReadBack', 'DeliveryReadsPayload'), count=False,
+                        workers=4)
+
+    clamp3d = dict(rot='Rot_Few', subs='Subs_Both', ctor='Ctor_None', reg='Reg_Full', beh='Beh_Clamp')
+
+    def swapped():
+        # non-vacuity of the order properties: dispatch before store (the two statements of a setter swapped)
+        c, ov = consts([], ['q'], vecs, False, store_first=False, **clamp3d)
+        res.model_check('TransformMC', 'c20_notify_before_store', c, invariants=INVARIANTS, properties=PROPERTIES,
+                        overrides=ov, count=False, workers=2,
+                        expect_violation=('DeliveryReadsPayload', 'StoredIsLastAssigned', 'LastNotificationIsReadBack'))
+        # ... and "what survives is the most recent assignment" alone (a clamp overwritten by the outer store)
+        res.model_check('TransformMC', 'c20_notify_before_store_final', c, invariants=['StoredIsLastAssigned'],
+                        overrides=ov, count=False, workers=2, expect_violation='StoredIsLastAssigned')
+        # documentation: without the stale-delivery exception the property fails on the *intended* model
+        c, ov = consts([], ['q'], vecs, False, **clamp3d)
+        res.model_check('TransformMC', 'c20_strict_last_notification', c, invariants=['LastNotificationIsReadBackStrict'],
+                        overrides=ov, count=False, workers=2, expect_violation='LastNotificationIsReadBackStrict')
 
     def big():
         # (M) only: both kinds together, every rotation, listeners added and removed on both (too large to replay)
         c, ov = consts(['p'], ['q'], vecs if thorough else ['va'], True, subs='Subs_Some' if thorough else 'Subs_Two',
                        ctor='Ctor_None')
-        return res.model_check('TransformMC', 'c20_both_full', c, invariants=INVARIANTS, properties=PROPERTIES,
-                               overrides=ov, count=False, workers=8)
+        r, _g = res.model_check('TransformMC', 'c20_both_full', c, invariants=INVARIANTS, properties=PROPERTIES,
+                                overrides=ov, count=False, workers=8)
+        if thorough:    # both kinds with a clamping listener registered on one or both of them
+            c, ov = consts(['p'], ['q'], vecs, False, rot='Rot_Few', subs='Subs_Both', ctor='Ctor_None', reg='Reg_Cross',
+                           beh='Beh_Clamp')
+            r2, _g = res.model_check('TransformMC', 'c20_both_clamp', c, invariants=INVARIANTS, properties=PROPERTIES,
+                                     overrides=ov, count=False, workers=8)
+            r.distinct += r2.distinct
+            r.states += r2.states
+        return r, None
 
     # the TLC runs are independent processes: start them together, replay as the graphs arrive
-    with ThreadPoolExecutor(len(instances) + 2) as pool:
+    with ThreadPoolExecutor(len(instances) + 3) as pool:
         futs = [pool.submit(mc, i) for i in instances]
-        others = [pool.submit(asimpl), pool.submit(big)]
+        others = [pool.submit(asimpl), pool.submit(big), pool.submit(swapped)]
         for inst, fut in zip(instances, futs):
             name, t2, t3, _c, kw = inst
             r, g = fut.result()
@@ -98,6 +136,7 @@ def run(res):
             res.transitions += r.states
             replay_graph(res, name, g, dict([(t, '2d') for t in t2] + [(t, '3d') for t in t3]), **kw)
         others[0].result()
+        others[2].result()
         r, _g = others[1].result()
         res.states += r.distinct
         res.transitions += r.states
